@@ -8,12 +8,18 @@ open SMap
 
 /-! ## nodes, primary writer, compactor (fsm.go) -/
 
-/-- `f.nodes[p.Node.ID] = &p.Node` — the whole record is replaced (applyAddNode = applyUpdateNode). -/
+/-- `applyAddNode` = `applyUpdateNode`: the record is replaced, except that the role assignment is
+kept: an existing id keeps its recorded `writer_state`, a new id never comes in marked "primary"
+(fix 466f761). -/
 def applyAddNode (s : NodeSt) (n : NodeInfo) : NodeSt × Res :=
-  ({ s with nodes := s.nodes.ins n.id n }, .ok)
+  match s.nodes.get? n.id with
+  | some old => ({ s with nodes := s.nodes.ins n.id { n with wstate := old.wstate } }, .ok)
+  | none =>
+    ({ s with nodes := s.nodes.ins n.id { n with wstate := if n.wstate = "primary" then "" else n.wstate } }, .ok)
 
+/-- `applyRemoveNode`: removing the recorded primary writer clears `primaryWriterID` (fix 4708dee). -/
 def applyRemoveNode (s : NodeSt) (id : String) : NodeSt × Res :=
-  ({ s with nodes := s.nodes.del id }, .ok)
+  ({ s with nodes := s.nodes.del id, pw := if s.pw = id then "" else s.pw }, .ok)
 
 def applyUpdateNodeState (s : NodeSt) (id st : String) : NodeSt × Res :=
   match s.nodes.get? id with
@@ -30,15 +36,15 @@ def setWState (nodes : SMap String NodeInfo) (id ws : String) : SMap String Node
 def demoteOld (nodes : SMap String NodeInfo) (pw id : String) : SMap String NodeInfo :=
   if pw ≠ "" ∧ pw ≠ id then setWState nodes pw "standby" else nodes
 
-/-- `applyPromoteWriter`. NOTE the not-found case: the old primary has already been demoted and
-`primaryWriterID` already points at the unknown id when the error is returned. -/
+/-- `applyPromoteWriter`: existence and role are validated before any state is touched
+(fix 93fb282). -/
 def applyPromote (s : NodeSt) (id : String) : NodeSt × Res :=
   if id = "" then (s, .invalid) else
   match s.nodes.get? id with
   | some n =>
     if n.role ≠ "writer" then (s, .invalid)
     else ({ s with nodes := setWState (demoteOld s.nodes s.pw id) id "primary", pw := id }, .ok)
-  | none => ({ s with nodes := demoteOld s.nodes s.pw id, pw := id }, .notfound)
+  | none => (s, .notfound)
 
 /-- `applyDemoteWriter`: clears `primaryWriterID` when it names the id, even if the node is unknown. -/
 def applyDemote (s : NodeSt) (id : String) : NodeSt × Res :=
@@ -66,12 +72,13 @@ def applyRegister (s : FileSt) (idx : Nat) (f : FileEntry) : FileSt × Res :=
   ({ s with files := s.files.ins e.path e,
             filesByDB := (dropOldIdx s e).ins2 e.db e.path () }, .ok)
 
-/-- `applyUpdateFileStruct` — identical except that an empty database is NOT indexed. -/
+/-- `applyUpdateFileStruct` — same state change as Register: indexes unconditionally, an empty
+database included (fix 464463f). -/
 def applyUpdateFile (s : FileSt) (idx : Nat) (f : FileEntry) : FileSt × Res :=
   if !fileOk f then (s, .invalid) else
   let e : FileEntry := { f with lsn := idx }
   ({ s with files := s.files.ins e.path e,
-            filesByDB := if e.db ≠ "" then (dropOldIdx s e).ins2 e.db e.path () else dropOldIdx s e }, .ok)
+            filesByDB := (dropOldIdx s e).ins2 e.db e.path () }, .ok)
 
 /-- `applyDeleteFileStruct` -/
 def applyDeleteFile (s : FileSt) (path : String) : FileSt × Res :=
@@ -141,10 +148,11 @@ def nameTaken (byName : SMap String Int) (name : String) (id : Int) : Bool :=
   | some other => other != id
   | none => false
 
-/-- `applyUpdateToken`. NOTE: a changed name is not validated (may be empty / over-long). -/
+/-- `applyUpdateToken`: a changed name must satisfy the rule `Restore` applies (fix 305f0ae). -/
 def applyUpdateToken (s : AuthSt) (idx : Nat) (id : Int) (name desc perms : String) (expires : Int)
     (changed : List String) : AuthSt × Res :=
   if id = 0 then (s, .invalid)
+  else if changed.contains "name" && !validTokenName name then (s, .invalid)
   else if changed.contains "permissions" && !validPerms perms then (s, .invalid)
   else match s.tokens.get? id with
   | none => (s, .ok)
